@@ -821,7 +821,7 @@ package bbolt
 //@ func Compact$2
 //@   returns (res)
 //@   props C15
-//@   requires tx != nil && tx.root.tx == tx && dst != nil && len(k) + len(v) >= 0 && size >= 0 && size <= 4611686018427387904 && txMaxSize >= 0
+//@   requires tx != nil && tx.root.tx == tx && dst != nil && len(k) <= 2147483647 && len(v) <= 2147483647 && size >= 0 && size <= 4611686018427387904 && txMaxSize >= 0
 //@   skip pre/Commit because the destination transaction satisfies Commit's preconditions by the DB invariant (it was obtained from dst.Begin(true) and only used through the public API)
 //@   skip nopanic/Commit because see pre/Commit
 //@   skip pre/Begin because see pre/Commit
